@@ -1085,6 +1085,42 @@ def sec_xml(cx):
         chk.count(("xmlop", json.dumps(e), ap), nontrivial=True)
         if got != want:
             cx.viol("xmlop", {"elem": e, "attr_prefix": ap, "content_name": cn, "want": want, "got": got}, "to_xml | from_xml is not the identity on an element-tree document")
+    # ---------- YAML input with leading --- / comments / several documents through -o=xml (leading content of the printer) ----------
+    ycases = []
+    for _ in range(cx.n(40, 600)):
+        ndocs = rng.choice([1, 1, 2, 3])
+        text, keys, words = "", [], []
+        for di in range(ndocs):
+            if rng.random() < 0.5:
+                w = "c%dx" % len(words)
+                words.append(w)
+                text += "# %s\n" % w
+            if di > 0 or rng.random() < 0.6:
+                text += "---\n"
+            for _ in range(rng.choice([0, 1, 1, 2])):
+                w = "c%dx" % len(words)
+                words.append(w)
+                text += "# %s\n" % w
+            k = "k%d" % di
+            keys.append(k)
+            text += "%s: v%d\n" % (k, di)
+        ycases.append((text, keys, words))
+    ycases += [("---\n# c0x\na: 1\n", ["a"], ["c0x"]), ("# c0x\n---\n# c1x\na: 1\n", ["a"], ["c0x", "c1x"])]
+    from concurrent.futures import ThreadPoolExecutor
+    with ThreadPoolExecutor(vlib.NCPU) as ex:
+        yres = list(ex.map(lambda c: vlib.run_yq(["-p=yaml", "-o=xml", "."], stdin=c[0].encode()), ycases))
+    for (text, keys, words), (rc, out, err) in zip(ycases, yres):
+        chk.count(("xmlyaml", text), nontrivial=bool(words))
+        o = out.decode("utf-8", "replace")
+        try:
+            roots = [c.tag for c in ET.fromstring("<w>" + o + "</w>")]
+        except Exception as ex_:
+            roots = "not well-formed: %s" % ex_
+        ctext = " ".join(re.findall(r"<!--(.*?)-->", o, re.S)).split()
+        if rc != 0 or roots != keys or sorted(ctext) != sorted(words) or "$yq" in o:
+            cx.viol("cli", {"label": "yaml -> xml leading content", "args": ["-p=yaml", "-o=xml", "."], "stdin_b64": vlib.b64e(text), "stdin": text, "reader": "xmlyaml",
+                            "expected": [keys, words], "rc": rc, "stdout": o[:1000]},
+                    "yq -o=xml of YAML with leading ---/comments: the comments of the output are not exactly the comments of the input (or the XML is malformed)")
     # ---------- probe: one text delivered as several character data tokens (CDATA section / comment inside the text) ----------
     for t, want in (("<a>t<![CDATA[<x>]]>u</a>", {"a": "t<x>u"}), ("<a>x<!-- c -->y</a>", {"a": "xy"})):
         r = vlib.yqh_batch([{"op": "c14_dec", "fmt": "xml", "text_b64": vlib.b64e(t)}])[0]
@@ -2201,6 +2237,10 @@ def cli_check(reader, expected, out):
         return jnorm(et_to_elem(ET.fromstring(out.decode()))) == expected
     if reader == "lua":
         return lua_same(lua_read(out), _to_bytes(expected))
+    if reader == "xmlyaml":
+        o = out.decode("utf-8", "replace")
+        roots = [c.tag for c in ET.fromstring("<w>" + o + "</w>")]
+        return roots == expected[0] and sorted(" ".join(re.findall(r"<!--(.*?)-->", o, re.S)).split()) == sorted(expected[1]) and "$yq" not in o
     return False
 
 
